@@ -259,7 +259,7 @@ impl FileWatcher {
         for event in events {
             let links = &self.links_file_watch;
 
-            let mut paths_iterator = event.event.paths.iter().map(|path| {
+            let paths_iterator = event.event.paths.iter().map(|path| {
                 links
                     .iter()
                     .find_map(|(link_location, link_path)| {
@@ -295,7 +295,10 @@ impl FileWatcher {
                     }
                 }
                 EventKind::Create(_create_kind) => {
-                    has_created = paths_iterator.next().is_some();
+                    for path in paths_iterator {
+                        has_created = true;
+                        worker_tree.source_changed(path);
+                    }
                 }
                 EventKind::Modify(modify_kind) => {
                     if let ModifyKind::Name(_rename_mode) = modify_kind {
